@@ -241,7 +241,7 @@ namespace Dune {
             << className<Value>()
             << " (" << n << " items were extracted successfully)");
       }
-      Value dummy;
+      char dummy;
       s >> dummy;
       // now extraction should have failed, and eof should be set
       if(not s.fail() or not s.eof())
